@@ -388,6 +388,7 @@ void do_reopen(world& w, json& rec)
         return;
     }
     rec["exists"] = exists;
+    rec["want"] = w.schema_name;
     rec["loaded"] = vh::name_of(loaded);
     rec["ver"] = w.db->version_name();
     w.conn = shim::last_db();
